@@ -1,4 +1,4 @@
-(* Model of fakesnow/variables.py (Variables._set/_unset/inline_variables/_split_protected, after fixes 054ef98 and 83dbaa3)
+(* Model of fakesnow/variables.py (Variables._set/_unset/inline_variables/_split_protected, after fixes 054ef98, 83dbaa3 and 7b219e4)
    and of the per-connection variable store (conn.py:52, cursor.py:138,448).
    Texts are ASCII; \w is [A-Za-z0-9_] (Unicode \w and case folding are outside the model). *)
 From FS Require Import Sexp.
@@ -10,55 +10,42 @@ Definition dollar : Z := 36.
 
 Definition ci_eqc (a b : Z) : bool := lo_c a =? lo_c b.
 
-(* re: \$NAME(?!\w) attempted right after a '$'; returns the text after NAME on success *)
-Fixpoint strip_ci (name s : str) : option str :=
-  match name, s with
-  | [], _ => Some s
-  | _ :: _, [] => None
-  | a :: name', b :: s' => if ci_eqc a b then strip_ci name' s' else None
-  end.
 Definition boundary (s : str) : bool := match s with [] => true | c :: _ => negb (is_word c) end.
-Definition matches (name s : str) : bool :=
-  match strip_ci name s with Some rest => boundary rest | None => false end.
-
-(* re.sub(rf"\${name}(?!\w)", value, sql, IGNORECASE): leftmost, non-overlapping, no rescan *)
-Fixpoint inline_go (name value : str) (skip : nat) (s : str) : str :=
-  match s with
-  | [] => []
-  | c :: r =>
-      match skip with
-      | S k => inline_go name value k r
-      | O => if (c =? dollar) && matches name r
-             then value ++ inline_go name value (length name) r
-             else c :: inline_go name value O r
-      end
-  end.
-Definition inline_one (name value sql : str) : str := inline_go name value O sql.
+Fixpoint take_word (s : str) : str :=
+  match s with c :: r => if is_word c then c :: take_word r else [] | [] => [] end.
 
 Definition vars := list (str * str).   (* insertion-ordered dict: name -> value text *)
 
-Definition inline_all (vs : vars) (sql : str) : str :=
-  fold_left (fun s nv => inline_one (fst nv) (snd nv) s) vs sql.
+(* name lookup in any letter case; the first variable whose name matches wins *)
+Fixpoint ci_eqs (a b : str) : bool :=
+  match a, b with
+  | [], [] => true
+  | x :: a', y :: b' => ci_eqc x y && ci_eqs a' b'
+  | _, _ => false
+  end.
+Definition lookup (vs : vars) (w : str) : option str :=
+  match find (fun nv => ci_eqs (fst nv) w) vs with Some (_, v) => Some v | None => None end.
 
-(* re.search(r"(?<!\$)\$\w+", sql): the first such match, if any *)
-Fixpoint take_word (s : str) : str :=
-  match s with c :: r => if is_word c then c :: take_word r else [] | [] => [] end.
-Fixpoint remaining (prev_dollar : bool) (s : str) : option str :=
+(* Variables._inline: re.sub(r"(?<!\$)\$(\w+)", value_of, sql) - ONE pass, leftmost, non-overlapping: a '$' that does not follow
+   another '$' and is followed by a word is a reference to the variable of that name; its value is inserted verbatim and NOT
+   scanned again; the first reference to an undefined variable raises (inr = the error's variable text, upper-cased) *)
+Fixpoint xgo (vs : vars) (skip : nat) (prev_dollar : bool) (s : str) : str + str :=
   match s with
-  | [] => None
+  | [] => inl []
   | c :: r =>
-      if (c =? dollar) && negb prev_dollar && negb (boundary r)
-      then Some (c :: take_word r)
-      else remaining (c =? dollar) r
+      match skip with
+      | S k => xgo vs k false r
+      | O =>
+          if (c =? dollar) && negb prev_dollar && negb (boundary r)
+          then let w := take_word r in
+               match lookup vs w with
+               | Some v => match xgo vs (length w) false r with inl o => inl (v ++ o) | inr e => inr e end
+               | None => inr (upper (c :: w))
+               end
+          else match xgo vs O (c =? dollar) r with inl o => inl (c :: o) | inr e => inr e end
+      end
   end.
-
-(* Variables._inline: one piece of SQL text proper *)
-Definition inline_text (vs : vars) (sql : str) : str + str :=   (* inr = undefined-variable error, upper-cased *)
-  let s := inline_all vs sql in
-  match remaining false s with
-  | Some m => inr (upper m)
-  | None => inl s
-  end.
+Definition inline_text (vs : vars) (sql : str) : str + str := xgo vs O false sql.
 
 (* ---- variables.py:_split_protected (fix 83dbaa3): the text is cut into pieces; complete 'string literals' (with ''
    and backslash escapes), "quoted identifiers" (with ""), $$dollar-quoted strings$$, -- comments and /* comments */ are protected;
